@@ -4,6 +4,7 @@ Theorems about `Olla.Model.Retry.execute` for every endpoint list, every selecto
 C06 contract and every assignment of attempt outcomes (any fault at any point of any attempt).
 -/
 import Olla.Model.Retry
+import Olla.Model.Pool
 import Olla.Spec.C02
 
 namespace Olla.Props.C02
@@ -230,5 +231,103 @@ example : SelectContract (fun l => l.head?) := by
     A sends 2 of 4 bytes then resets, B answers — the spliced transcript is explained by no single attempt. -/
 theorem C02_unguarded_witness :
     singleAttempt [⟨0, 200, [], [65, 66, 67, 68]⟩, ⟨1, 200, [], [90]⟩] [0, 1] (some ⟨200, [], [65, 66, 90]⟩) = false := by decide
+
+/-! ### Pooled scratch objects have one holder at a time — as long as nobody releases what it does not hold
+
+"All bytes … come from one attempt" and its siblings (C01 body, C12/C13 translation, C15 headers, C16 target) are about
+one request; under load several requests run at once and the engines give them read buffers, event buffers and scratch
+structs out of pools.  The invariant below is what makes one request's model enough: every object is either in the pool
+once or checked out once.  It holds for every history of the pool that respects the callers' discipline, whatever the pool
+itself does (reuse, allocate, drop); a single release of an object that is not checked out breaks it (witness). -/
+
+section Pool
+open Olla.Model.Pool
+
+/-- every object exists once: in the pool or with one holder; and all objects were allocated -/
+def PoolInv (s : St) : Prop := (s.free ++ s.held).Nodup ∧ ∀ o ∈ s.free ++ s.held, o < s.fresh
+
+private theorem pool_inv_step (s s' : St) (op : Op) (hi : PoolInv s)
+    (hd : match op with | .put o => o ∈ s.held | _ => True) (hs : step s op = some s') : PoolInv s' := by
+  obtain ⟨hn, hb⟩ := hi
+  cases op with
+  | getFree o =>
+    simp only [step] at hs
+    split at hs
+    · rename_i ho
+      cases hs
+      have hperm : (s.free.erase o ++ o :: s.held).Perm (s.free ++ s.held) := by
+        have h1 : s.free.Perm (o :: s.free.erase o) := List.perm_cons_erase ho
+        calc (s.free.erase o ++ o :: s.held).Perm (o :: (s.free.erase o ++ s.held)) := List.perm_middle
+          _ |>.Perm ((o :: s.free.erase o) ++ s.held) := by simp
+          _ |>.Perm (s.free ++ s.held) := (h1.symm).append_right _
+      exact ⟨hperm.nodup_iff.mpr hn, fun x hx => hb x (hperm.mem_iff.mp hx)⟩
+    · cases hs
+  | getNew =>
+    simp only [step] at hs
+    cases hs
+    have hfresh : s.fresh ∉ s.free ++ s.held := fun h => Nat.lt_irrefl _ (hb _ h)
+    have hperm : (s.free ++ s.fresh :: s.held).Perm (s.fresh :: (s.free ++ s.held)) := List.perm_middle
+    refine ⟨hperm.nodup_iff.mpr (List.nodup_cons.mpr ⟨hfresh, hn⟩), ?_⟩
+    intro x hx
+    have := hperm.mem_iff.mp hx
+    simp only [List.mem_cons] at this
+    rcases this with rfl | h
+    · exact Nat.lt_succ_self _
+    · exact Nat.lt_succ_of_lt (hb x h)
+  | put o =>
+    simp only [step] at hs
+    cases hs
+    have ho : o ∈ s.held := hd
+    have hperm : (o :: s.free ++ s.held.erase o).Perm (s.free ++ s.held) := by
+      have h1 : s.held.Perm (o :: s.held.erase o) := List.perm_cons_erase ho
+      have h2 : (s.free ++ s.held).Perm (s.free ++ o :: s.held.erase o) := h1.append_left _
+      have h3 : (s.free ++ o :: s.held.erase o).Perm (o :: (s.free ++ s.held.erase o)) := List.perm_middle
+      simpa using (h2.trans h3).symm
+    exact ⟨hperm.nodup_iff.mpr hn, fun x hx => hb x (hperm.mem_iff.mp hx)⟩
+  | drop o =>
+    simp only [step] at hs
+    split at hs
+    · cases hs
+      have hsub : (s.free.erase o ++ s.held).Sublist (s.free ++ s.held) := (List.erase_sublist).append_right _
+      exact ⟨hn.sublist hsub, fun x hx => hb x (hsub.subset hx)⟩
+    · cases hs
+
+/-- **Exclusive ownership for every disciplined history**: whatever the pool does — reuse in any order, allocate, drop —
+    as long as every release is of an object that is checked out, no object is ever in the pool twice or with two holders. -/
+theorem pool_exclusive_of_discipline (ops : List Op) (s s' : St) (hi : PoolInv s) (hd : Disciplined s ops)
+    (hr : run s ops = some s') : PoolInv s' := by
+  induction ops generalizing s with
+  | nil => simp only [run] at hr; cases hr; exact hi
+  | cons op rest ih =>
+    simp only [run] at hr
+    cases hst : step s op with
+    | none => rw [hst] at hr; cases hr
+    | some s1 =>
+      rw [hst] at hr
+      simp only [Option.bind] at hr
+      have hd' := hd
+      simp only [Disciplined, hst] at hd'
+      exact ih s1 (pool_inv_step s s1 op hi hd'.1 hst) hd'.2 hr
+
+theorem pool_inv_init : PoolInv init := by
+  simp [PoolInv, init]
+
+/-- from a fresh pool: checked-out objects are pairwise distinct (one holder each) -/
+theorem pool_one_holder (ops : List Op) (s' : St) (hd : Disciplined init ops) (hr : run init ops = some s') :
+    s'.held.Nodup :=
+  ((pool_exclusive_of_discipline ops init s' pool_inv_init hd hr).1.sublist (List.sublist_append_right _ _))
+
+/-- **One release too many**: a holder gets an object, puts it back twice; the next two holders are given the same object. -/
+theorem pool_double_release_witness :
+    (run init [.getNew, .put 0, .put 0, .getFree 0, .getFree 0]).map (·.held) = some [0, 0] ∧
+    ¬ Disciplined init [.getNew, .put 0, .put 0, .getFree 0, .getFree 0] := by
+  refine ⟨by decide, ?_⟩
+  simp [Disciplined, step, init]
+
+example : Disciplined init [.getNew, .getNew, .put 1, .getFree 1, .put 0, .drop 0, .put 1] ∧
+    (run init [.getNew, .getNew, .put 1, .getFree 1, .put 0, .drop 0, .put 1]).isSome := by
+  refine ⟨by simp [Disciplined, step, init], by decide⟩
+
+end Pool
 
 end Olla.Props.C02
